@@ -20,18 +20,19 @@ def main(ck):
     jobs = []
     nperm = 3 if q else 8
     for c in cases:
-        jobs.append((c, {}))
+        jobs.append((c, {'form': 'df'}))
+        jobs.append((c, {'form': 'csv'}))      # like is compared with like: CSV cannot tell '' from null (that is C18's subject)
         for k in range(nperm):
             jobs.append((c, {'perm_seed': ck.rng.randrange(1 << 30), 'shuffle_cols': True, 'form': 'csv' if k % 2 else 'df'}))
     outs = V.run_variants(jobs)
     i = 0
     hist = {}
     for c in cases:
-        base = outs[i]
-        vars_ = outs[i + 1:i + 1 + nperm]
-        vjobs = jobs[i + 1:i + 1 + nperm]
-        i += 1 + nperm
-        if base[0] == 'timeout' or any(v[0] == 'timeout' for v in vars_):
+        base, base_csv = outs[i], outs[i + 1]
+        vars_ = outs[i + 2:i + 2 + nperm]
+        vjobs = jobs[i + 2:i + 2 + nperm]
+        i += 2 + nperm
+        if base[0] == 'timeout' or base_csv[0] == 'timeout' or any(v[0] == 'timeout' for v in vars_):
             hist['timeout'] = hist.get('timeout', 0) + 1
             ck.count(None, nontrivial=False)
             continue
@@ -44,13 +45,16 @@ def main(ck):
         if base[0] == 'raw':
             continue        # raw engine failures are C32/C01 findings; nothing to compare
         for v, (_, var) in zip(vars_, vjobs):
-            ok, why = V.same_result(base, v)
+            ref = base_csv if var.get('form') == 'csv' else base
+            if ref[0] == 'raw':
+                continue
+            ok, why = V.same_result(ref, v)
             if not ok:
                 ops = c.get('ops', [])
                 key = 'permutation-changes-result:%s:%s' % (var.get('form'), ops[-1] if ops else '?')
                 ck.violation(key, {'script': c['vtl'], 'structures': G.structures(c['env']),
                                    'data': {k: [[str(x) if x is not None else None for x in r] for r in d['rows']] for k, d in c['env'].items()},
-                                   'variant': var, 'base': str(base)[:800], 'permuted': str(v)[:800], 'why': why},
+                                   'variant': var, 'base': str(ref)[:800], 'permuted': str(v)[:800], 'why': why},
                              'permuting input rows/columns (%s form) changed the result of %s: %s' % (var.get('form'), c['vtl'][:120], why))
                 break
     ck.note('outcomes', hist)
